@@ -340,6 +340,49 @@ func checkC11(P *Program, r *Result, tier string) {
 				r.add("ORDER-FREE", shortName(rd), "store", "field "+fs.Name+" is decoded under dispatch/STOP/error conditions only", P.pos(instrPos(st)), bad == "", bad)
 			}
 		}
+		// ---- STOP-END: FastRead reports success only where it has just read a STOP field header ----
+		// (a way out that bypasses the field loop — a fast path for "the usual layout" — stops short of unknown
+		// fields that follow)
+		{
+			nsucc := 0
+			for _, rc := range retCases(rd) {
+				succ, known := caseSuccess(rc)
+				if !known || !succ {
+					continue
+				}
+				nsucc++
+				okStop := false
+				conds := blockConds(rc.at.Block(), nil, 0)
+				if iff, isIf := rc.at.(*ssa.If); isIf && rc.pred >= 0 {
+					conds = append(conds, condImplies(iff.Cond, iff.Block().Succs[0] == rc.ret.Block(), 0)...)
+				}
+				for _, dc := range conds {
+					bo, isBo := dc.Cond.(*ssa.BinOp)
+					if !isBo || (bo.Op != token.EQL && bo.Op != token.NEQ) {
+						continue
+					}
+					x, y := bo.X, bo.Y
+					if _, xc := constInt(x); xc {
+						x, y = y, x
+					}
+					k, isC := constInt(y)
+					if !isC || k != 0 || !isTagType(stripConv(x).Type()) {
+						continue
+					}
+					if (bo.Op == token.EQL) == dc.Truth {
+						okStop = true
+					}
+				}
+				d := ""
+				if !okStop {
+					d = "this success is not taken under \"the field type just read is STOP\""
+				}
+				r.add("CURSOR-ARG", shortName(rd), "stop", "success is reported only at a STOP field header", P.pos(instrPos(rc.ret)), okStop, d)
+			}
+			if nsucc == 0 {
+				r.add("CURSOR-ARG", shortName(rd), "stop", "success is reported only at a STOP field header", P.pos(rd.Pos()), false, "no success return classified")
+			}
+		}
 		// ---- CURSOR-ARG ----
 		{
 			fa := A.fa(rd)
@@ -449,6 +492,12 @@ func isDispatchOrErrCond(cond ssa.Value) bool {
 			v = bo.Y
 		}
 		return isErrorType(v.Type())
+	}
+	if _, isCX := constInt(bo.X); isCX && (bo.Op == token.EQL || bo.Op == token.NEQ) {
+		if _, isCY := constInt(bo.Y); !isCY {
+			// constant on the left (STOP == tp): the same comparison
+			bo = &ssa.BinOp{Op: bo.Op, X: bo.Y, Y: bo.X}
+		}
 	}
 	if _, isC := constInt(bo.Y); !isC {
 		// loop bound of a map/list read: i < sz with sz read from the wire
@@ -969,17 +1018,33 @@ func checkC15(P *Program, r *Result, tier string) {
 		copyName := strings.TrimSuffix(n, "Nocopy")
 		L := newLayouts(P)
 		wV, _ := typeWidth(v.Type())
-		sum := L.inplaceWriterOn(fn, buf, map[*ssa.Parameter]*bx{v: {op: "arg", k: 0, w: wV}}, func(b *ssa.BasicBlock) bool {
-			return !(b == direct.Block() || direct.Block().Dominates(b))
-		})
-		got, bad := sum.canon()
+		// one summary per way out that is not the direct one (the copying call may be repeated under several guards)
 		want := thriftBinarySpec()["Binary"].writer
-		okCopy, dCopy := bad == "" && firstDiff(got, want) == "", bad
-		if bad == "" {
-			dCopy = firstDiff(got, want)
+		okCopy, dCopy := true, ""
+		nCopy := 0
+		for _, ret := range returnsOf(fn) {
+			rb := ret.Block()
+			if rb == direct.Block() || direct.Block().Dominates(rb) {
+				continue
+			}
+			nCopy++
+			sum := L.inplaceWriterOn(fn, buf, map[*ssa.Parameter]*bx{v: {op: "arg", k: 0, w: wV}}, func(b *ssa.BasicBlock) bool {
+				if b == direct.Block() || direct.Block().Dominates(b) {
+					return false
+				}
+				return b == rb || b.Dominates(rb)
+			})
+			got, bad := sum.canon()
+			if bad != "" {
+				okCopy, dCopy = false, bad
+			} else if d := firstDiff(got, want); d != "" {
+				okCopy, dCopy = false, d
+			} else if sum.total.String() != "4+len(arg0)" {
+				okCopy, dCopy = false, "the copying path reports "+sum.total.String()+" bytes"
+			}
 		}
-		if okCopy && sum.total.String() != "4+len(arg0)" {
-			okCopy, dCopy = false, "the copying path reports "+sum.total.String()+" bytes"
+		if nCopy == 0 {
+			okCopy, dCopy = false, "no way out other than the direct path"
 		}
 		r.add("NIL-SAFE", shortName(fn), "call", "otherwise the bytes of the copying "+copyName+" are stored (4-byte length, payload) and 4+len(v) is returned", P.pos(fn.Pos()), okCopy, dCopy)
 		// threshold: on the direct path len(v) ≥ threshold; on the nil-writer path the copy is taken
